@@ -17,10 +17,10 @@ namespace math
 \ingroup fcpptmath
 \tparam T A numeric type
 
-For unsigned types, this returns:
+For unsigned types, this returns the larger value minus the smaller one:
 
 \f[
-\min(a - b, b - a)
+\max(a, b) - \min(a, b)
 \f]
 
 For other types, <code>abs(a-b)</code> is returned.
